@@ -1,13 +1,15 @@
 """C03 — a declined reaction is returned untouched and with a reason; solved rows name a method and carry no issue;
 carbon excess on the product side is always declined. Default threshold (0)."""
-from .. import pipeprops as pp, oracle
+from hypothesis import strategies as st
+
+from .. import gen, pipeprops as pp, oracle
 from ..runner import case_key
 
 ID = "C03"
 LEVEL = "exploration"
 RULE = ("Same reaction generator as C01 at the default threshold 0 (all batch sizes; worker counts 2/4/16 in one shard), "
         "enriched with reactions whose products carry more carbon than the reactants and with two-sided imbalances "
-        "containing oxygen. Oracle: declined => reaction == input_reaction (string) and non-empty issue; solved => "
+        "containing oxygen, and (1 reaction in 4) with product sides that repeat a carbon-containing molecule. Oracle: declined => reaction == input_reaction (string) and non-empty issue; solved => "
         "method in {input-balanced, rule-based, mcs-based} and empty/absent issue; oracle carbon(products) > "
         "carbon(reactants) => declined. Non-trivial = a declined row (went through the editing stages and had to be "
         "restored) or a row with product-side carbon excess; distinct = distinct input strings.")
@@ -35,7 +37,37 @@ def judge(case, rows, stats, res):
             res.nt_keys.append(case_key(inp))
 
 
-M = pp.PipelineModule(judge, thresholds_strategy=None)
+_SMALL = ["CO", "C=O", "OC=O", "CC(=O)O", "OCCO", "CCO", "C", "CC=O", "CN", "O=C=O", "c1ccccc1", "CC(C)=O", "CCl"]
+
+
+@st.composite
+def repeated_product_reaction(draw):
+    """product sides that list the same carbon-containing molecule several times (identical text): small A>>B.B(.B)
+    reactions and curated balanced reactions with one of their products repeated once or twice more — most of them
+    carry more carbon in the products than in the reactants"""
+    if draw(st.booleans()):
+        a = draw(st.lists(st.sampled_from(_SMALL + ["O", "[H][H]"]), min_size=1, max_size=2))
+        b = draw(st.sampled_from(_SMALL))
+        extra = draw(st.lists(st.sampled_from(_SMALL + ["O"]), max_size=1))
+        prods = list(draw(st.permutations([b] * draw(st.integers(2, 3)) + extra)))
+        return ".".join(a) + ">>" + ".".join(prods), ["repeated-product"]
+    base = draw(gen.indexed(gen.load_reactions_capped("balanced", 30, 4)))
+    a, b = oracle.split_reaction(base)
+    pb = b.split(".")
+    with_c = [m for m in pb if (oracle.count_element(m, "C") or 0) > 0] or pb
+    m = draw(st.sampled_from(with_c))
+    pb = pb + [m] * draw(st.integers(1, 2))
+    return a + ">>" + ".".join(pb), ["repeated-product"]
+
+
+def _rx(spec):
+    base = pp.closed_shell_rx(gen.any_reaction(max_heavy=spec.get("max_heavy", 30), max_mols=4,
+                                               weights=tuple(spec.get("weights", (4, 4, 3, 1)))))
+    return st.one_of(gen.maybe_respelled(base, 4), gen.maybe_respelled(base, 4), gen.maybe_respelled(base, 4),
+                     pp.closed_shell_rx(repeated_product_reaction()))
+
+
+M = pp.PipelineModule(judge, rx_strategy=_rx, thresholds_strategy=None)
 
 
 def shards(tier):
